@@ -655,6 +655,63 @@ fn real_un_after(x: &Node, ax: &Assembly, y: &Node, ay: &Assembly) -> Option<Str
     .flatten()
 }
 
+fn inv_result_string(res: Result<String, String>) -> String {
+    match res {
+        Ok(s) => format!("K{s}"),
+        Err(e) => format!("E{e}"),
+    }
+}
+
+/// one of the three inversions through the public API, printed with every span (handles' id/index dropped)
+fn invert_once(which: u8, n: &Node, asm: &Assembly, g: Signature, inv: bool) -> String {
+    inv_result_string(match which {
+        0 => n.un_inverse(asm).map(|r| export_full(&r, asm)).map_err(|e| e.to_string()),
+        1 => n.anti_inverse(asm).map(|r| export_full(&r, asm)).map_err(|e| e.to_string()),
+        _ => n.under_inverse(g, inv, asm).map(|(b, a)| format!("{} / {}", export_full(&b, asm), export_full(&a, asm))).map_err(|e| e.to_string()),
+    })
+}
+
+/// the inversion of each (node, assembly, g_sig, inverse) in turn in ONE new thread; the results in order
+fn invert_seq(which: u8, items: Vec<(Node, Assembly, Signature, bool)>) -> Option<Vec<String>> {
+    in_thread(move || catch(move || items.iter().map(|(n, a, g, i)| invert_once(which, n, a, *g, *i)).collect::<Vec<_>>()).ok()).flatten()
+}
+
+/// the same assembly with one more entry in its spans table (no key feeds the table)
+fn longer(asm: &Assembly) -> Assembly {
+    let mut a = asm.clone();
+    a.spans.push(uiua::Span::Builtin);
+    a
+}
+
+/// does the real inversion read the length of the spans table (its fresh result changes with it)?
+fn reads_len(which: u8, n: &Node, asm: &Assembly, g: Signature, inv: bool) -> Option<bool> {
+    let a = invert_seq(which, vec![(n.clone(), asm.clone(), g, inv)])?;
+    let b = invert_seq(which, vec![(n.clone(), longer(asm), g, inv)])?;
+    Some(a != b)
+}
+
+/// one store case: does the real inversion of `t` read the table length, and is its result served again
+/// (same key, longer table) in the same thread?  observable only when the length is read
+fn emit_store(which: u8, t: &Node, asm: &Assembly) {
+    let g = Signature::new(1, 1);
+    let Some(reads) = reads_len(which, t, asm, g, false) else { return };
+    let seq = invert_seq(which, vec![(t.clone(), asm.clone(), g, false), (t.clone(), longer(asm), g, false)]);
+    let fresh2 = invert_seq(which, vec![(t.clone(), longer(asm), g, false)]);
+    if let (Some(seq), Some(fresh2)) = (seq, fresh2) {
+        // served again (1) or made anew (0)
+        let stored = if !reads { 2 } else if seq[1] == fresh2[0] { 0 } else { 1 };
+        println!(
+            "{{\"store\":true,\"which\":{},\"x\":{},\"len\":{},\"reads\":{},\"stored\":{},\"show\":{}}}",
+            which,
+            jstr(&export_slice(t, asm)),
+            asm.spans.len(),
+            reads,
+            stored,
+            jstr(&format!("{t:?}"))
+        );
+    }
+}
+
 fn real_sig(n: &Node) -> String {
     let n = n.clone();
     in_thread(move || format!("{:?}", n.sig())).unwrap_or_default()
@@ -925,6 +982,28 @@ fn main() {
                 // the anti-inverse key also feeds for_un: the pair of kind "for-un" is one tree with for_un = false / true
                 let (fx, fy) = (false, kind == "for-un");
                 let anti_eq = hooks::anti_inverse_key(sx, ax, fx) == hooks::anti_inverse_key(sy, ay, fy);
+                // the under cache: g_sig and the inverse flag given for x and for y
+                // (the inverse flag only matters for an unbalanced g: under.rs:427-435)
+                let (gx, gy) = match kind {
+                    "g-sig" => (Signature::new(1, 1), Signature::new(2, 2)),
+                    "under-flag" => (Signature::new(2, 1), Signature::new(2, 1)),
+                    _ => (Signature::new(1, 1), Signature::new(1, 1)),
+                };
+                let (ix, iy) = (false, kind == "under-flag");
+                let (mut under_collide, mut under_x_reads, mut un_x_reads) = ("2", false, false);
+                if fcmp || kind == "g-sig" || kind == "under-flag" {
+                    let fx_ = invert_seq(2, vec![(x.clone(), ax.clone(), gx, ix)]);
+                    let fy_ = invert_seq(2, vec![(y.clone(), ay.clone(), gy, iy)]);
+                    if let (Some(a), Some(b)) = (fx_, fy_) {
+                        if a != b {
+                            // the real under cache: is y's inverse, asked right after x's, what a fresh thread gives?
+                            if let Some(seq) = invert_seq(2, vec![(x.clone(), ax.clone(), gx, ix), (y.clone(), ay.clone(), gy, iy)]) {
+                                under_collide = if seq[1] == b[0] { "0" } else { "1" };
+                                under_x_reads = reads_len(2, x, ax, gx, ix).unwrap_or(false);
+                            }
+                        }
+                    }
+                }
                 let mut collide = "2";
                 let mut un_show = String::new();
                 let mut x_usable = true;
@@ -941,6 +1020,7 @@ fn main() {
                     if un == "0" || un == "3" {
                         un_show = format!("{} | {}", a.as_deref().unwrap_or(""), b.as_deref().unwrap_or("")).chars().take(600).collect();
                         // the real cache: does y's inverse, asked right after x's, come out as in a fresh thread?
+                        un_x_reads = reads_len(0, x, ax, gx, ix).unwrap_or(false);
                         collide = match real_un_after(x, ax, y, ay) {
                             Some(after) if Some(after.as_str()) == b.as_ref().map(|s| &s[1..]) => "0",
                             Some(_) => "1",
@@ -952,7 +1032,7 @@ fn main() {
                     ("2", "2")
                 };
                 println!(
-                    "{{\"i\":{},\"kind\":{},\"x\":{},\"y\":{},\"sig_eq\":{},\"node_eq\":{},\"inv_eq\":{},\"zip_eq\":{},\"fx\":{},\"fy\":{},\"anti_eq\":{},\"un_eq\":{},\"rsig_eq\":{},\"un_collide\":{},\"x_usable\":{},\"lx\":{},\"ly\":{},\"un_show\":{},\"show\":{}}}",
+                    "{{\"i\":{},\"kind\":{},\"x\":{},\"y\":{},\"sig_eq\":{},\"node_eq\":{},\"inv_eq\":{},\"zip_eq\":{},\"fx\":{},\"fy\":{},\"anti_eq\":{},\"un_eq\":{},\"rsig_eq\":{},\"un_collide\":{},\"x_usable\":{},\"un_x_reads\":{},\"gx\":{},\"gy\":{},\"ix\":{},\"iy\":{},\"under_collide\":{},\"under_x_reads\":{},\"lx\":{},\"ly\":{},\"un_show\":{},\"show\":{}}}",
                     *k,
                     jstr(kind),
                     jstr(&export_slice(x, ax)),
@@ -968,6 +1048,13 @@ fn main() {
                     sg_eq,
                     collide,
                     x_usable,
+                    un_x_reads,
+                    sigcode(gx),
+                    sigcode(gy),
+                    ix,
+                    iy,
+                    under_collide,
+                    under_x_reads,
                     ax.spans.len(),
                     ay.spans.len(),
                     jstr(&un_show),
@@ -975,6 +1062,17 @@ fn main() {
                 );
                 *k += 1;
             };
+            // fixed store cases: bodies whose inverse matches a constant BENEATH a modifier (the outer result must
+            // not be stored either: the flag of the inner making has to reach the outer wrapper)
+            for src in ["F ← ⊙5\n°F 1 6", "F ← ⊙(⊙5)\n°F 1 2 6", "F ← ⊂⊙(5)\n°F [1 5]", "F ← ⊙5⇌\n°F [1] 6"] {
+                if let Some(asm) = compile_lazy(src) {
+                    if let Some(body) = asm.functions.first() {
+                        for which in [0u8, 2u8] {
+                            emit_store(which, body, &asm);
+                        }
+                    }
+                }
+            }
             let mut rounds = 0;
             while k < n && rounds < n * 20 {
                 rounds += 1;
@@ -992,6 +1090,18 @@ fn main() {
                 // same tree twice
                 if r.chance(1, 10) {
                     emit("identical", &t, &asm, &t, &asm, fcmp, &mut k);
+                }
+                // same tree, another g_sig / the other inverse flag given to under
+                if r.chance(1, 6) {
+                    emit("g-sig", &t, &asm, &t, &asm, false, &mut k);
+                }
+                if r.chance(1, 6) {
+                    emit("under-flag", &t, &asm, &t, &asm, false, &mut k);
+                }
+                // the store side condition: does the real inversion read the table length, and is its result
+                // served again (same key, longer table) in the same thread?
+                if r.chance(1, 3) {
+                    emit_store((k % 3) as u8, &t, &asm);
                 }
                 // same tree, anti-inverse for un / not for un
                 if r.chance(1, 8) {
